@@ -11,7 +11,7 @@
 From Coq Require Import List Arith Bool.
 Import ListNotations.
 Require Import MV.Lower.Lang MV.Lower.LangProofs MV.Lower.Passes MV.Lower.BreakProofs MV.Lower.ContinueProofs
-               MV.Lower.ReturnProofs MV.Lower.Compose.
+               MV.Lower.ReturnProofs MV.Lower.Compose MV.Lower.Source.
 
 Theorem lowering_correct : forall b s d tr o s' d',
   run_block b s d tr o s' d' -> lowering_hyps b = true -> o = ONormal \/ o = ORet \/ o = ORaise ->
@@ -19,6 +19,16 @@ Theorem lowering_correct : forall b s d tr o s' d',
   exists sl', run_block (lowered b) sl d tr (ro o) sl' d'
               /\ (o = ORet -> sl' rflag = true) /\ (o <> ORet -> sl' rflag = false).
 Proof. exact lowering_correct_lemma. Qed.
+
+(* The side conditions follow from a condition on the source program alone (Lower/Source.v: every intermediate
+   program lies in the fragment the next pass is proved correct on): no flags, loops without else clause (the
+   pipeline rejects loop-else), finally clauses without break / continue / return. *)
+Theorem lowering_correct_source : forall b s d tr o s' d',
+  run_block b s d tr o s' d' -> src_block b = true -> o = ONormal \/ o = ORet \/ o = ORaise ->
+  forall sl, (forall f, sl f = false) ->
+  exists sl', run_block (lowered b) sl d tr (ro o) sl' d'
+              /\ (o = ORet -> sl' rflag = true) /\ (o <> ORet -> sl' rflag = false).
+Proof. exact lowering_correct_source_lemma. Qed.
 
 (* non-vacuity: while t1: try: if t2: break; if t3: continue; if t4: return r5; a6  else: a7  finally: a8 ; a9 *)
 Definition ex_l : block :=
@@ -52,4 +62,7 @@ Example ex_le_uncaught :
   exec_block 80 ex_le (fun _ => false) [1; 0; 1] = ([1; 2; 3; 8], ORaise, (fun _ => false), [])
   /\ (let '(tr, o, s, d) := exec_block 200 (lowered ex_le) (fun _ => false) [1; 0; 1] in (tr, o, s rflag, d)) = ([1; 2; 3; 8], ORaise, false, []).
 Proof. vm_compute; split; reflexivity. Qed.
+Example ex_l_src : src_block ex_l = true /\ src_block ex_le = true.
+Proof. vm_compute; split; reflexivity. Qed.
 Print Assumptions lowering_correct.
+Print Assumptions lowering_correct_source.
